@@ -60,7 +60,8 @@ def f14_root_cause(matcher, v):
     """Open finding F14: the first mismatching entry c of the path is *stale*: its path predecessor p was improved in place after
     c was computed, and p was not re-expanded because (a) the improving candidate came from a chain of an earlier expansion round
     (it carried delayed < expand_now, which _update_inner copies), or (b) p was re-postponed by pruning right after the improvement
-    and is still waiting for a wider lattice, or (c, only with avoid_goingback) p was re-expanded but the recomputed value is lower
+    and is still waiting for a wider lattice, or (d) c is a non-emitting state whose recomputed candidate was rejected by the
+    closest-so-far filter (p was scheduled and re-expanded: p.delayed equals the round of its improvement), or (c, only with avoid_goingback) p was re-expanded but the recomputed value is lower
     than the stale one, which therefore survives update()."""
     k = v.details.get("index")
     lb = matcher.lattice_best
@@ -71,8 +72,12 @@ def f14_root_cause(matcher, v):
     if imp is None or not imp["seq"] > getattr(c, "t_seq", 1 << 60):
         return False
     if v.details["reported"] < v.details["model"]:
-        # stale-low: computed from the predecessor's old, lower probability and never recomputed
-        return imp["cand_delayed"] < imp["round"] or p.delayed > matcher.expand_now
+        # stale-low: computed from the predecessor's old, lower probability and never recomputed, because
+        if imp["cand_delayed"] < imp["round"] or p.delayed > matcher.expand_now:
+            return True  # (a) p was not scheduled for re-expansion / (b) p was re-postponed by pruning
+        # (d) p was scheduled and re-expanded, but c is a non-emitting state and the recomputed candidate for c was rejected by
+        # the closest-so-far filter of the non-emitting search, whose table is rebuilt (and differs) in every round
+        return c.obs_ne != 0 and p.delayed == imp["round"]
     # stale-high: only possible with the second-order term of avoid_goingback. The improvement gave the predecessor another
     # predecessor, the recomputed candidate now pays a going-back penalty, is lower than the stale value and loses against it
     # in update(), so the stale value (which belongs to the overwritten history) stays.
